@@ -1,8 +1,9 @@
 ---- MODULE MC_Singleton ----
 (* Thread / view tables of a run as plain strings (cfg files cannot hold functions). *)
 EXTENDS Singleton
-CONSTANTS O1, O2, O3, LA, LB, LC
+CONSTANTS O1, O2, O3, K1, K2, K3, LA, LB, LC
 OrgT == [t \in Threads |-> CASE t = "t1" -> O1 [] t = "t2" -> O2 [] OTHER -> O3]
+KindT == [t \in Threads |-> CASE t = "t1" -> K1 [] t = "t2" -> K2 [] OTHER -> K3]
 LeadT == [n \in Nodes |-> CASE n = "A" -> LA [] n = "B" -> LB [] OTHER -> LC]
 View0 == core
 ====
